@@ -756,7 +756,7 @@ static void fill_dst(timg *m)
 {
     for (int y = 0; y < m->H; y++) for (int x = 0; x < m->W; x++) {
         int a = (x * 53 + y * 101 + 40) & 255; if (x == 0 && y == 0) a = 0; if (x == 1 && y == 0) a = 255;
-        int v = m->bpp == 32 ? (int)(((uint32_t)a << 24) | ((a / 2) << 16) | ((a / 3) << 8) | (a / 5)) : m->bpp == 8 ? a : m->bpp == 4 ? (a & 15) : (a & 1);
+        int v = m->bpp == 32 ? (int)(((uint32_t)a << 24) | ((a / 2) << 16) | ((a / 3) << 8) | (a / 5)) : m->fmt == PIXMAN_x4a4 ? (a >> 4) /* the x nibble is not a pixel value: routes that rewrite a pixel and routes that leave it alone may differ there, so it starts as 0 */ : m->bpp == 8 ? a : m->bpp == 4 ? (a & 15) : (a & 1);
         timg_put(m, x, y, v);
     }
 }
@@ -860,7 +860,7 @@ static void comp_setup(compctx *c, pixman_format_code_t dfmt, pixman_format_code
 
 /* ------------------------------------------------------------------------------------------------ main */
 
-static const char *fmtname(pixman_format_code_t f) { return f == PIXMAN_a8 ? "a8" : f == PIXMAN_a4 ? "a4" : f == PIXMAN_a1 ? "a1" : f == PIXMAN_a8r8g8b8 ? "a8r8g8b8" : "?"; }
+static const char *fmtname(pixman_format_code_t f) { return f == PIXMAN_a8 ? "a8" : f == PIXMAN_a4 ? "a4" : f == PIXMAN_a1 ? "a1" : f == PIXMAN_a8r8g8b8 ? "a8r8g8b8" : f == PIXMAN_x4a4 ? "x4a4" : "?"; }
 
 /* start-up self test of the grid understanding on axis-aligned rectangles (hard error, not a violation, if the model is off) */
 static void grid_selftest(void)
@@ -1162,9 +1162,9 @@ int main(int argc, char **argv)
     vf_space_run("public-edge-init-step", 7ull * 7 * 5 * 6 * 12 * 3, edgestep_case, NULL);
     /* (5) composite_trapezoids route independence */
     {
-        pixman_format_code_t dfm[] = { PIXMAN_a8, PIXMAN_a8r8g8b8, PIXMAN_a4, PIXMAN_a1 };
-        for (int df = 0; df < 4; df++) for (int mf = 0; mf < 3; mf++) {
-            if (df >= 2 && dfm[df] != fmts[mf]) continue;      /* a4/a1 destinations only with the same mask format (ADD shortcut) */
+        pixman_format_code_t dfm[] = { PIXMAN_a8, PIXMAN_a8r8g8b8, PIXMAN_a4, PIXMAN_a1, PIXMAN_x4a4 };     /* x4a4: alpha-only and 8 bpp like a8, but not the same format as any mask format */
+        for (int df = 0; df < 5; df++) for (int mf = 0; mf < 3; mf++) {
+            if ((df == 2 || df == 3) && dfm[df] != fmts[mf]) continue;      /* a4/a1 destinations only with the same mask format (ADD shortcut) */
             static compctx c;
             comp_setup(&c, dfm[df], fmts[mf], 5, 3, th);
             snprintf(nm, sizeof nm, "composite-%s-mask-%s", fmtname(dfm[df]), fmtname(fmts[mf]));
